@@ -128,6 +128,27 @@ Proof.
   - intros fv. vm_compute. discriminate.
 Qed.
 
+(* an accepted explicit position is kept for ever: the field is never relocated, whatever is laid out
+   later -- if its explicit range cannot be honoured assign_fields fails instead *)
+Lemma explicit_start_kept st fv i len p tags st1 st2 :
+  reachable st -> add_field st fv i len (Some p) tags = (st1, None) -> reaches st1 st2 ->
+  let fid := length (s_store st) in
+  f_start (sget (s_store st2) fid) = Some p /\
+  (forall q l, frange (s_store st2) fid = Some (q, l) -> q = p) /\
+  (forall l, len = Some l -> f_len (sget (s_store st2) fid) = Some l).
+Proof.
+  intros R H Hr fid. pose proof (reachable_inv _ R) as HI.
+  destruct (add_field_new_entry _ _ _ _ _ _ _ HI H) as [path [Hin [Hs Hl]]].
+  pose proof (add_field_gen_inv _ _ _ _ _ _ _ _ HI H) as HI1.
+  destruct (reaches_persist_inv _ _ HI1 Hr) as [_ HP].
+  destruct (HP _ Hin) as [_ [_ [P3 [_ P5]]]]. unfold e_fid in P3, P5. simpl in P3, P5.
+  assert (Hs2 : f_start (sget (s_store st2) fid) = Some p) by (apply P5; exact Hs).
+  split; [exact Hs2|split].
+  - intros q l Hq. unfold frange in Hq. fold fid in Hs2. rewrite Hs2 in Hq.
+    destruct (f_len (sget (s_store st2) fid)); inversion Hq; reflexivity.
+  - intros l ->. apply P3. exact Hl.
+Qed.
+
 Lemma assign_complete_exclusive_reachable st :
   reachable st -> exclusive_children (s_tree st) = true ->
   unpositioned (s_tree st) (s_store st) ->
